@@ -227,7 +227,12 @@ class Tourn(Part):
         import random as pyrandom
         from artap.operators import DummySelector, TournamentSelector
         rng = pyrandom.Random(case["cseed"])
-        sel = TournamentSelector([])
+        # half of the time the selector object of the previous case is used again (a selector lives as long as its algorithm and meets one
+        # population after another)
+        if rng.random() < 0.5 and getattr(type(self), "_shared_selector", None) is not None:
+            sel = type(self)._shared_selector
+        else:
+            sel = type(self)._shared_selector = TournamentSelector([])
         if case["kind"] == "pair":
             absvecs = [case["a"], case["b"]]
             allinds = make_inds(rng, absvecs + [absvecs[0]] * rng.randint(0, 3))
@@ -293,7 +298,11 @@ class Tourn(Part):
                      "res": "a" if (st == "ok" and res is pop[0]) else "other",
                      "member": st == "ok" and res is pop[0], "exc": "" if st == "ok" else res}]
         if st == "ok" and len(drawn) != 2:
-            raise Skip()        # the selector did not draw its two candidates through random.sample: cannot observe them
+            if any(res is x for x in pop):
+                raise Skip()    # the selector did not draw its two candidates through an observable random API: the winner cannot be judged
+            # ... but a result that is not even a member of the population needs no candidates to be judged
+            c0 = self.cand(pop[0], pop)
+            return [{"ev": "tourn", "a": c0, "b": c0, "res": "other", "member": False, "exc": ""}]
         ev = {"ev": "tourn", "a": None, "b": None, "res": "other", "member": False, "exc": ""}
         if st == "exc":
             ev["exc"] = res
